@@ -189,6 +189,9 @@ def run(ctx):
 
     update_before_generate(ctx, rule="R07.4")
     formula_rule(ctx)
+    from .C05 import krige_state
+
+    krige_state(ctx, rule="R07.6")
     return (
         "Decides clause (b) of C07 at the structural level: every writer of a source of the cached kriging results (conditions, kriging matrix, model/mean/normalizer/trend, "
         "positions/mesh type) invalidates the stored results on all feasible normal-exit paths, or is reported; the reuse branch reads exactly the results it tested for, requires "
